@@ -286,7 +286,9 @@ func blockHash(b *Block) []byte {
 // election precondition (not enough eligible validators).
 func isPrecondition(msg string) bool {
 	return bytes.Contains([]byte(msg), []byte("failed to elect any validators")) ||
-		bytes.Contains([]byte(msg), []byte("insufficient validators"))
+		bytes.Contains([]byte(msg), []byte("insufficient validators")) ||
+		// Every validator entity has zero escrow (needs all validators, not a minority): same precondition.
+		bytes.Contains([]byte(msg), []byte("total voting stake is zero"))
 }
 
 // lastCommitFor builds the LastCommitInfo for the block at height (votes of the
